@@ -3,18 +3,17 @@ import AdaVerif.Model.HostSetter
 import AdaVerif.Model.Protocol
 import AdaVerif.Model.PathPrepared
 /-
-`parser::parse_url_impl<ada::url, true>(input, nullptr)` (src/parser.cpp:321-1318) on inputs whose scheme is special and
-not `file`: the route SCHEME_START → SCHEME → SPECIAL_AUTHORITY_SLASHES → SPECIAL_AUTHORITY_IGNORE_SLASHES → AUTHORITY →
-HOST → PORT → PATH_START → PATH → QUERY, with the fragment attached at the end and the fast path
-(`try_parse_simple_absolute`) in front.  Other schemes (and every input with a base) leave the scope of this model
-(`Out.other`).  `input_position` becomes the remaining text; the configured length limit is not modelled here (C09).
+`parser::parse_url_impl<ada::url, true>(input, nullptr)` (src/parser.cpp:321-1318), every state an input without a base
+can reach: SCHEME_START → SCHEME → {SPECIAL_AUTHORITY_SLASHES → SPECIAL_AUTHORITY_IGNORE_SLASHES | PATH_OR_AUTHORITY |
+OPAQUE_PATH | FILE → FILE_SLASH → FILE_HOST} → AUTHORITY → HOST → PORT → PATH_START → PATH → QUERY, with the fragment
+attached at the end and the fast path (`try_parse_simple_absolute`) in front.  Inputs with a base are outside this model.
+`input_position` becomes the remaining text; the configured length limit is not modelled here (C09).
 -/
 namespace AdaVerif.Model.ParseSpecial
 open AdaVerif AdaVerif.Model.UrlRec AdaVerif.Model.HostParse
 
 inductive Out
   | invalid
-  | other
   | ok (r : Rec)
 deriving DecidableEq, Repr
 
@@ -187,6 +186,33 @@ def afterSchemeNS (idna : Spec.Idna) (scheme : Bytes) (frag : Option Bytes) (res
           query := query, hash := frag.map (Spec.percentEncode Spec.inFragment), opq := false }
   | _ => opaquePath scheme frag rest
 
+/-- PATH and QUERY of a `file` URL whose host is the empty string -/
+def filePath (frag : Option Bytes) (t : Bytes) : Out :=
+  let (path, query) := pathQ true 6 t
+  .ok { scheme := Spec.bFile, special := true, username := [], password := [], host := some [], port := none, path := path,
+        query := query, hash := frag.map (Spec.percentEncode Spec.inFragment), opq := false }
+
+/-- FILE_HOST (and PATH_START … QUERY behind it) -/
+def fileHost (idna : Spec.Idna) (frag : Option Bytes) (t : Bytes) : Out :=
+  let buffer := t.takeWhile (fun c => !(c == 0x2F || c == 0x5C || c == 0x3F))
+  if PathPrepared.isWindowsDriveLetter buffer then filePath frag t
+  else if buffer.isEmpty then finish true 6 Spec.bFile {} frag [] none t
+  else
+    match parseHost idna true buffer with
+    | none => .invalid
+    | some (h, _) => finish true 6 Spec.bFile {} frag (if h == Spec.bLocalhost then [] else h) none (t.drop buffer.length)
+
+/-- FILE and FILE_SLASH without a base -/
+def afterSchemeFile (idna : Spec.Idna) (frag : Option Bytes) (rest : Bytes) : Out :=
+  match rest with
+  | c :: r1 =>
+    if c == 0x2F || c == 0x5C then
+      match r1 with
+      | c2 :: r2 => if c2 == 0x2F || c2 == 0x5C then fileHost idna frag r2 else filePath frag r1
+      | [] => filePath frag r1
+    else filePath frag rest
+  | [] => filePath frag rest
+
 /-- the state machine from SCHEME_START on -/
 def machine (idna : Spec.Idna) (input : Bytes) : Out :=
   let (d, frag) := prep input
@@ -194,7 +220,7 @@ def machine (idna : Spec.Idna) (input : Bytes) : Out :=
   | none => .invalid                                       -- NO_SCHEME without a base
   | some (name, rest) =>
     let (ty, scheme) := parseSchemeNoOverride name
-    if ty == 6 then .other
+    if ty == 6 then afterSchemeFile idna frag rest
     else if ty == 1 then afterSchemeNS idna scheme frag rest
     else afterScheme idna ty scheme frag rest
 
@@ -216,13 +242,15 @@ def hostStart (input : Bytes) : Bytes :=
   match schemeScan (prep input).1 with
   | none => []
   | some (name, rest) =>
-    let sp := (parseSchemeNoOverride name).1 != 1
-    match authText sp rest with
-    | none => []
-    | some text =>
-      match authority sp text with
+    let ty := (parseSchemeNoOverride name).1
+    if ty == 6 then []                                      -- FILE_HOST has its own scan
+    else
+      match authText (ty != 1) rest with
       | none => []
-      | some (v, _) => v
+      | some text =>
+        match authority (ty != 1) text with
+        | none => []
+        | some (v, _) => v
 
 /-- "Skip digit-led hosts (IPv4) with a cheap peek." -/
 def digitLed (input : Bytes) : Bool :=
